@@ -196,4 +196,101 @@ theorem removeN_length (v : Bytes) (n : Nat) (l : List Bytes) :
       · have := ih m; simp only [List.length_cons]; omega
       · have := ih (m + 1); simp only [List.length_cons]; omega
 
+/-! ### LINDEX, LINSERT, LSET -/
+
+/-- LINDEX for every integer index: positions 0 … n-1 from the head, -1 … -n from the tail, nil outside -/
+theorem lindex_spec (c : Ctx) (db : Db) (k : Bytes) (e : Entry) (l : List Bytes) (i : Int)
+    (h : listOf c db k = .ok (some (e, l))) :
+    (∀ p : Nat, p < l.length → i = p → (cmdLIndex c db k i).reply = (match l[p]? with | some x => .bulk x | none => .nil)) ∧
+    (∀ p : Nat, 1 ≤ p → p ≤ l.length → i = -(p : Int) →
+        (cmdLIndex c db k i).reply = (match l[l.length - p]? with | some x => .bulk x | none => .nil)) ∧
+    (i ≥ (l.length : Int) ∨ i < -(l.length : Int) → (cmdLIndex c db k i).reply = .nil) ∧
+    (cmdLIndex c db k i).db = db := by
+  unfold cmdLIndex
+  simp only [h]
+  refine ⟨?_, ?_, ?_, ?_⟩
+  · intro p hp hi
+    subst hi
+    have a1 : ((p : Int) ≥ 0) := by omega
+    have a2 : (decide ((p : Int) < 0) || decide ((p : Int) ≥ (l.length : Int))) = false := by simp; omega
+    simp only [a1, ↓reduceIte, a2, Bool.false_eq_true, R.ok, Int.toNat_natCast]
+    rfl
+  · intro p h1 h2 hi
+    subst hi
+    have a1 : ¬ (-(p : Int) ≥ 0) := by omega
+    have a2 : (decide ((l.length : Int) + -(p : Int) < 0) || decide ((l.length : Int) + -(p : Int) ≥ (l.length : Int))) = false := by
+      simp; omega
+    have a3 : ((l.length : Int) + -(p : Int)).toNat = l.length - p := by omega
+    simp only [a1, ↓reduceIte, a2, Bool.false_eq_true, R.ok, a3]
+    rfl
+  · intro hi
+    by_cases h0 : i ≥ 0
+    · have a2 : (decide (i < 0) || decide (i ≥ (l.length : Int))) = true := by simp; omega
+      simp only [h0, ↓reduceIte, a2, R.ok]
+    · have a2 : (decide ((l.length : Int) + i < 0) || decide ((l.length : Int) + i ≥ (l.length : Int))) = true := by simp; omega
+      simp only [h0, ↓reduceIte, a2, R.ok]
+  · split_ifs <;> rfl
+
+/-- LINSERT: the new element goes next to the FIRST occurrence of the pivot, everything else keeps its
+    place; without the pivot nothing happens -/
+theorem insertAt_spec (l : List Bytes) (pivot v : Bytes) (before : Bool) :
+    (insertAt l pivot v before = none ↔ pivot ∉ l) ∧
+    (∀ l', insertAt l pivot v before = some l' →
+      ∃ a b, l = a ++ pivot :: b ∧ pivot ∉ a ∧
+        l' = (if before then a ++ v :: pivot :: b else a ++ pivot :: v :: b)) := by
+  induction l with
+  | nil => simp [insertAt]
+  | cons x r ih =>
+    unfold insertAt
+    by_cases hx : (x == pivot) = true
+    · have hxe : x = pivot := by simpa using hx
+      subst hxe
+      simp only [hx, ↓reduceIte]
+      refine ⟨by simp, ?_⟩
+      intro l' hl'
+      simp only [Option.some.injEq] at hl'
+      refine ⟨[], r, by simp, by simp, ?_⟩
+      subst hl'; cases before <;> simp
+    · have hne : x ≠ pivot := by simpa using hx
+      simp only [hx, Bool.false_eq_true, ↓reduceIte]
+      refine ⟨?_, ?_⟩
+      · simp only [Option.map_eq_none_iff, ih.1, List.mem_cons, not_or]
+        constructor
+        · intro h; exact ⟨fun e => hne e.symm, h⟩
+        · intro h; exact h.2
+      · intro l' hl'
+        simp only [Option.map_eq_some_iff] at hl'
+        obtain ⟨m, hm, rfl⟩ := hl'
+        obtain ⟨a, b, h1, h2, h3⟩ := ih.2 m hm
+        refine ⟨x :: a, b, by simp [h1], ?_, ?_⟩
+        · simp only [List.mem_cons, not_or]; exact ⟨fun e => hne e.symm, h2⟩
+        · subst h3; cases before <;> simp
+
+theorem linsert_reply (c : Ctx) (db : Db) (k pivot v : Bytes) (before : Bool) (e : Entry) (l : List Bytes)
+    (h : listOf c db k = .ok (some (e, l))) :
+    (pivot ∈ l → (cmdLInsert c db k before pivot v).reply = vInt (l.length + 1)) ∧
+    (pivot ∉ l → (cmdLInsert c db k before pivot v).reply = .int (-1) ∧ (cmdLInsert c db k before pivot v).db = db) := by
+  unfold cmdLInsert
+  simp only [h]
+  constructor
+  · intro hm
+    cases hi : insertAt l pivot v before with
+    | none => exact absurd hm ((insertAt_spec l pivot v before).1.mp hi)
+    | some l' =>
+      obtain ⟨a, b, h1, _, h3⟩ := (insertAt_spec l pivot v before).2 l' hi
+      simp only [R.ok]
+      subst h3; subst h1
+      cases before <;> simp [vInt] <;> omega
+  · intro hm
+    rw [(insertAt_spec l pivot v before).1.mpr hm]
+    simp [R.ok]
+
+/-- LSET: position `i` (counted from the tail when negative) gets the new value, every other position keeps
+    its element, the length stays -/
+theorem lset_positions (l : List Bytes) (j : Nat) (v : Bytes) (p : Nat) :
+    (l.set j v).length = l.length ∧ (p ≠ j → (l.set j v)[p]? = l[p]?) ∧ (j < l.length → (l.set j v)[j]? = some v) := by
+  refine ⟨List.length_set, ?_, ?_⟩
+  · intro h; rw [List.getElem?_set_ne (Ne.symm h)]
+  · intro h; rw [List.getElem?_set_self h]
+
 end RedisEmu
